@@ -42,7 +42,8 @@ def gen_case(rng, tier, idx):
     aw = rng.choice([2, 3, 4, 5, 6, 8, 10])
     return {"kind": "bare", "aw": aw, "dw": rng.choice([1, 4, 8, 8, 16, 32]),
             "al": rng.choice([0, 0, 0, 1, 2, 3]) if aw > 3 else 0,
-            "nsubs": rng.choice([0, 1, 2, 3, 4, 5, 6]), "cycles": 250 if tier == "quick" else 700}
+            "nsubs": rng.choice([0, 1, 2, 3, 4, 5, 6, 17, 20]) if aw >= 6 else rng.choice([0, 1, 2, 3, 4, 5, 6]),
+            "query_between_adds": rng.random() < 0.4, "cycles": 250 if tier == "quick" else 700}
 
 
 def run_case(case):
@@ -57,7 +58,7 @@ def run_bare(case, rng):
     dec = csr.Decoder(addr_width=aw, data_width=dw, alignment=case["al"])
     subs, topo = [], []
     for i in range(case["nsubs"]):
-        k = rng.randint(1, max(1, aw - 1))
+        k = rng.randint(1, max(1, (aw - 5) if case["nsubs"] > 8 else (aw - 1)))
         sub = csr.Interface(addr_width=k, data_width=dw, path=(f"sub{i}",))
         sub.memory_map = MemoryMap(addr_width=k, data_width=dw)
         if rng.random() < 0.3:
@@ -74,6 +75,9 @@ def run_bare(case, rng):
         except ValueError:
             continue
         subs.append(sub)
+        if case.get("query_between_adds") and rng.random() < 0.5:
+            mm_ = dec.bus.memory_map
+            list(mm_.window_patterns()), list(mm_.windows()), list(mm_.all_resources()), mm_.decode_address(0)
     by_map = {id(s.memory_map): s for s in subs}
     wins = []      # (sub, start, true_end, end)
     for w, _n, (s, e, ratio) in dec.bus.memory_map.windows():
